@@ -332,7 +332,7 @@ class ExecCore:
         """Type invariant of a heap array: collection lengths are non-negative."""
         if key in (("llen",), ("dlen",)):
             r = z3.Const("wf_r", V.Ref)
-            return z3.ForAll([r], z3.Select(arr, r) >= 0)
+            return z3.ForAll([r], V.sel(arr, r) >= 0)
         return None
 
     def sort_by_name(self, name: str) -> z3.SortRef:
@@ -356,7 +356,7 @@ class ExecCore:
         kind = key[0]
         A = z3.ArraySort
         if kind == "alloc":
-            return A(V.Ref, z3.BoolSort())
+            return z3.IntSort()
         if kind in ("llen", "dlen"):
             return A(V.Ref, z3.IntSort())
         if kind == "lel":
@@ -378,9 +378,9 @@ class ExecCore:
         t = self.field_type(mangled)
         if t.kind == "none":
             return V.NONEV
-        term = z3.Select(self.field_arr(heap, mangled), obj.t)
+        term = V.sel(self.field_arr(heap, mangled), obj.t)
         if t.kind == "opt":
-            return Val(t, term, none=z3.Select(self.field_none_arr(heap, mangled), obj.t))
+            return Val(t, term, none=V.sel(self.field_none_arr(heap, mangled), obj.t))
         if t.kind == "tuple" or t.kind == "ntuple":
             raise OutOfSubset(f"tuple-typed field {mangled}")
         return Val(t, term)
@@ -394,21 +394,35 @@ class ExecCore:
         if t.kind == "opt":
             st.heap[("fn", mangled)] = z3.Store(self.field_none_arr(st.heap, mangled), obj.t, v.none)
 
-    def alloc_arr(self, heap: dict):
-        return self.heap_get(heap, ("alloc",), z3.ArraySort(V.Ref, z3.BoolSort()))
+    # Allocation is modelled with birth times (no quantifiers): every reference has an immutable birth time `born(r)`, the heap carries
+    # the integer clock `now`; r is allocated iff born(r) < now.  Allocating takes a reference born exactly now and advances the clock; a
+    # callee that may allocate only moves the clock forward.  Freshness/distinctness/monotonicity are then linear integer facts.
+    def now(self, heap: dict):
+        return self.heap_get(heap, ("alloc",), z3.IntSort())
 
-    def allocate(self, st: State, ty: Ty, prefix: str = "new") -> Val:
+    def born(self, r):
+        return self.uf("born", V.Ref, z3.IntSort())(r)
+
+    def is_alloc(self, heap: dict, r):
+        return self.born(r) < self.now(heap)
+
+    def alloc_arr(self, heap: dict):           # kept for old call sites: an object supporting Select-like use is no longer available
+        raise OutOfSubset("alloc_arr is gone: use is_alloc(heap, ref)")
+
+    def allocate(self, st: State, ty: Ty, prefix: str = "new", pin_class: bool = True) -> Val:
         r = z3.Const(V.fresh_name(prefix), V.Ref)
-        a = self.alloc_arr(st.heap)
-        st.assume(z3.Not(z3.Select(a, r)))
-        st.heap[("alloc",)] = z3.Store(a, r, True)
-        if ty.kind == "obj":
+        n = self.now(st.heap)
+        st.assume(self.born(r) == n)
+        st.heap[("alloc",)] = n + 1
+        V.ALLOC_CONSTS[r.get_id()] = len(V.ALLOC_CONSTS)
+        self._alloc_keepalive = getattr(self, "_alloc_keepalive", []) + [r]
+        if ty.kind == "obj" and pin_class:
             st.assume(V.cls_of(r) == self.class_ids[ty.args[0]])
         return Val(ty, r)
 
     def assume_allocated(self, st: State, v: Val) -> None:
         if v.t is not None and v.t.sort() == V.Ref and v.ty.kind in ("obj", "list", "dict", "set"):
-            st.assume(z3.Select(self.alloc_arr(st.heap), v.t))
+            st.assume(self.is_alloc(st.heap, v.t))
 
     # ---- collections.  list: ("llen",) Ref->Int, ("lel", sort) Ref->(Int->elem).  dict/set: ("dhas", ksort), ("dval", ksort, vsort)
     def key_term(self, heap: dict, k: Val) -> Tuple[z3.ExprRef, str]:
@@ -419,7 +433,7 @@ class ExecCore:
             q = k.ty.args[0]
             if self.tree.is_subclass(q, self.class_q("AbstractTransaction")):
                 idf = self.tree.field("AbstractTransaction.__internal_id")
-                return z3.Select(self.field_arr(heap, idf), k.t), "txid"
+                return V.sel(self.field_arr(heap, idf), k.t), "txid"
             if q == self.class_q("GainLoss"):
                 return self.gl_key(heap, k), "glkey"
         if k.ty.kind == "rec" and k.ty.args[0] == self.class_q("YearlyGainLoss"):
@@ -433,7 +447,7 @@ class ExecCore:
         ids = self.field_arr(heap, idf)
         ev = self.read_field(heap, g, self.tree.field("GainLoss.__taxable_event"), None)
         lot = self.read_field(heap, g, self.tree.field("GainLoss.__acquired_lot"), None)
-        return GK.mk(z3.Select(ids, ev.t), z3.Not(lot.none), z3.If(lot.none, z3.IntVal(0), z3.Select(ids, lot.t)))
+        return GK.mk(V.sel(ids, ev.t), z3.Not(lot.none), z3.If(lot.none, z3.IntVal(0), V.sel(ids, lot.t)))
 
     def ygl_key(self, y: Val):
         sort, _ = self.rec_sort(y.ty.args[0])
@@ -445,9 +459,9 @@ class ExecCore:
 
     def coll_len(self, heap: dict, c: Val):
         if c.ty.kind == "list":
-            return z3.Select(self.heap_get(heap, ("llen",), z3.ArraySort(V.Ref, z3.IntSort())), c.t)
+            return V.sel(self.heap_get(heap, ("llen",), z3.ArraySort(V.Ref, z3.IntSort())), c.t)
         if c.ty.kind in ("dict", "set"):
-            return z3.Select(self.heap_get(heap, ("dlen",), z3.ArraySort(V.Ref, z3.IntSort())), c.t)
+            return V.sel(self.heap_get(heap, ("dlen",), z3.ArraySort(V.Ref, z3.IntSort())), c.t)
         raise OutOfSubset(f"len of {c.ty}")
 
     def list_elem_ty(self, c: Val) -> Ty:
@@ -462,7 +476,7 @@ class ExecCore:
         et = self.list_elem_ty(c)
         if et.kind == "opt":
             raise OutOfSubset("list of Optional")
-        return Val(et, z3.Select(z3.Select(self.list_arr(heap, c), c.t), i))
+        return Val(et, V.sel(V.sel(self.list_arr(heap, c), c.t), i))
 
     def list_append(self, st: State, c: Val, v: Val) -> None:
         et = self.list_elem_ty(c)
@@ -470,7 +484,7 @@ class ExecCore:
         n = self.coll_len(st.heap, c)
         arr = self.list_arr(st.heap, c)
         key = ("lel", V.sort_key(V.sort_of(et)))
-        st.heap[key] = z3.Store(arr, c.t, z3.Store(z3.Select(arr, c.t), n, v.t))
+        st.heap[key] = z3.Store(arr, c.t, z3.Store(V.sel(arr, c.t), n, v.t))
         st.heap[("llen",)] = z3.Store(st.heap[("llen",)], c.t, n + 1)
 
     def new_list(self, st: State, et: Ty, elems: List[Val]) -> Val:
@@ -488,7 +502,7 @@ class ExecCore:
 
     def dict_has(self, heap: dict, d: Val, key: Val):
         kt, kname, has = self.dict_arrs(heap, d, key)
-        return z3.Select(z3.Select(has, d.t), kt)
+        return V.sel(V.sel(has, d.t), kt)
 
     def dict_val_arr(self, heap: dict, d: Val, kt, kname):
         vt = d.ty.args[1]
@@ -502,30 +516,30 @@ class ExecCore:
             _, arr = self.dict_val_arr(heap, d, kt, kname)
             nk = ("dvaln", kname)
             narr = self.heap_get(heap, nk, z3.ArraySort(V.Ref, z3.ArraySort(kt.sort(), z3.BoolSort())))
-            return Val(vt, z3.Select(z3.Select(arr, d.t), kt), none=z3.Select(z3.Select(narr, d.t), kt))
+            return Val(vt, V.sel(V.sel(arr, d.t), kt), none=V.sel(V.sel(narr, d.t), kt))
         _, arr = self.dict_val_arr(heap, d, kt, kname)
-        return Val(vt, z3.Select(z3.Select(arr, d.t), kt))
+        return Val(vt, V.sel(V.sel(arr, d.t), kt))
 
     def dict_set(self, st: State, d: Val, key: Val, v: Val) -> None:
         kt, kname, has = self.dict_arrs(st.heap, d, key)
         vt = d.ty.args[1]
         v = self.coerce(v, vt)
-        was = z3.Select(z3.Select(has, d.t), kt)
-        st.heap[("dhas", kname)] = z3.Store(has, d.t, z3.Store(z3.Select(has, d.t), kt, True))
+        was = V.sel(V.sel(has, d.t), kt)
+        st.heap[("dhas", kname)] = z3.Store(has, d.t, z3.Store(V.sel(has, d.t), kt, True))
         vkey, arr = self.dict_val_arr(st.heap, d, kt, kname)
-        st.heap[vkey] = z3.Store(arr, d.t, z3.Store(z3.Select(arr, d.t), kt, v.t))
+        st.heap[vkey] = z3.Store(arr, d.t, z3.Store(V.sel(arr, d.t), kt, v.t))
         if vt.kind == "opt":
             nk = ("dvaln", kname)
             narr = self.heap_get(st.heap, nk, z3.ArraySort(V.Ref, z3.ArraySort(kt.sort(), z3.BoolSort())))
-            st.heap[nk] = z3.Store(narr, d.t, z3.Store(z3.Select(narr, d.t), kt, v.none))
+            st.heap[nk] = z3.Store(narr, d.t, z3.Store(V.sel(narr, d.t), kt, v.none))
         dl = self.heap_get(st.heap, ("dlen",), z3.ArraySort(V.Ref, z3.IntSort()))
-        st.heap[("dlen",)] = z3.Store(dl, d.t, z3.If(was, z3.Select(dl, d.t), z3.Select(dl, d.t) + 1))
+        st.heap[("dlen",)] = z3.Store(dl, d.t, z3.If(was, V.sel(dl, d.t), V.sel(dl, d.t) + 1))
 
     def dict_del(self, st: State, d: Val, key: Val) -> None:
         kt, kname, has = self.dict_arrs(st.heap, d, key)
-        st.heap[("dhas", kname)] = z3.Store(has, d.t, z3.Store(z3.Select(has, d.t), kt, False))
+        st.heap[("dhas", kname)] = z3.Store(has, d.t, z3.Store(V.sel(has, d.t), kt, False))
         dl = self.heap_get(st.heap, ("dlen",), z3.ArraySort(V.Ref, z3.IntSort()))
-        st.heap[("dlen",)] = z3.Store(dl, d.t, z3.Select(dl, d.t) - 1)
+        st.heap[("dlen",)] = z3.Store(dl, d.t, V.sel(dl, d.t) - 1)
 
     def new_dict(self, st: State, ty: Ty) -> Val:
         d = self.allocate(st, ty, "dict" if ty.kind == "dict" else "set")
@@ -655,8 +669,13 @@ class ExecCore:
         loc = ""
         if node is not None and fr is not None:
             loc = f"{fr.module.relpath}:{getattr(node, 'lineno', 0)}"
-        self.path_counter += 1
-        self.vcs.append(VC(self.cur_func, kind, label, list(st.pc), goal, loc, self.path_counter, note))
+        # a conjunctive clause is discharged conjunct by conjunct (smaller, more stable queries; the obligation keeps its name)
+        parts = goal.children() if z3.is_and(goal) and 1 < goal.num_args() <= 12 else [goal]
+        for g in parts:
+            if z3.is_true(g):
+                continue
+            self.path_counter += 1
+            self.vcs.append(VC(self.cur_func, kind, label, list(st.pc), g, loc, self.path_counter, note))
 
     # feasibility / entailment queries share one incremental solver whose assertion stack mirrors a path-condition prefix
     def _sync(self, pc: List) -> None:
